@@ -77,7 +77,8 @@ Inductive dm := DNone | DLeaf (v : value) | DNode (l : list (addr * dm)).
 
 (** The sampling monad: a free monad over draws.  A draw is resolved by an
     arbitrary value (the "tape" reading); [SErr] is a raised exception. *)
-Record dist := { logpdf : value -> value -> Z }.   (* logpdf x args *)
+Record dist := { logpdf : value -> value -> Z;      (* logpdf x args *)
+                 dsample : value -> value }.         (* the scripted sampler: value drawn given args *)
 
 Inductive samp (A : Type) :=
 | SRet (a : A)
